@@ -1,7 +1,9 @@
 package checks
 
 import (
+	"encoding/json"
 	"fmt"
+	"os"
 	"sort"
 	"strings"
 	"sync"
@@ -131,6 +133,7 @@ type c08Run struct {
 	failedCalls []string
 	inj         *c08Injector
 	outcome     string
+	firedAny    bool
 	everWritten map[string]map[string]bool
 }
 
@@ -228,6 +231,9 @@ func (fr *c08Run) readCheck(db *leveldb.DB, where string, afterReopen bool) (hun
 		fr.hang(db, "NewIterator", where)
 		return true
 	}
+	if fr.panicked("NewIterator", err) {
+		return false
+	}
 	if err != nil {
 		fr.c.Res.Count("reads", "iterator-error")
 		// the pairs returned before the error must still be values that were written
@@ -256,6 +262,9 @@ func (fr *c08Run) readCheck(db *leveldb.DB, where string, afterReopen bool) (hun
 		if hung {
 			fr.hang(db, "Get", where)
 			return true
+		}
+		if fr.panicked("Get", gerr) {
+			return false
 		}
 		switch {
 		case gerr == nil:
@@ -306,6 +315,17 @@ func (fr *c08Run) classify(oracle, where, msg string, afterReopen bool) {
 	fr.violate(sig, where+": "+msg, nil)
 }
 
+// panicked reports a call that panicked.
+func (fr *c08Run) panicked(call string, err error) bool {
+	pe, ok := err.(*crPanicErr)
+	if !ok {
+		return false
+	}
+	kind, typ := fr.lastFault()
+	fr.violate(fmt.Sprintf("fault:%s/%s:panic:%s:%s", kind, typ, strings.SplitN(call, " ", 2)[0], crPanicSite(pe.Stack)), fmt.Sprintf("%s panicked: %v\n%s", call, pe.Val, pe.Stack), nil)
+	return true
+}
+
 // call runs one client call under the watchdog, labelling the storage operations it causes.
 func (fr *c08Run) call(ctx string, f func() error) (error, bool) {
 	fr.inj.setCtx(ctx)
@@ -313,6 +333,7 @@ func (fr *c08Run) call(ctx string, f func() error) (error, bool) {
 	if !hung {
 		fr.inj.setCtx("idle")
 	}
+	fr.panicked(ctx, err)
 	return err, hung
 }
 
@@ -461,6 +482,7 @@ func (fr *c08Run) run() {
 		}
 	}
 	atomic.StoreInt32(&fr.inj.armed, 0)
+	fr.firedAny = len(fr.inj.firedOps()) > 0
 	img := st.Clone()
 	if hungRun {
 		go db.Close() // lets the background retry loops end; may itself stay blocked
@@ -495,6 +517,7 @@ func (fr *c08Run) run() {
 			}
 		}
 		atomic.StoreInt32(&inj2.armed, 0)
+		fr.firedAny = fr.firedAny || len(inj2.firedOps()) > 0
 		img.SetHooks(nil, nil)
 		img.ForceUnlock()
 		img = img.Clone()
@@ -553,7 +576,7 @@ func (fr *c08Run) run() {
 
 // ---- enumeration ---------------------------------------------------------------------------------
 
-var c08Kinds = []stor.Kind{stor.OpWrite, stor.OpSync, stor.OpCreate, stor.OpRemove, stor.OpOpen, stor.OpRead, stor.OpSetMeta, stor.OpClose, stor.OpList, stor.OpGetMeta}
+var c08Kinds = []stor.Kind{stor.OpWrite, stor.OpSync, stor.OpCreate, stor.OpRemove, stor.OpOpen, stor.OpRead, stor.OpSetMeta, stor.OpList, stor.OpGetMeta} // Close failures are not in the fault alphabet of the property ("writes, syncs, creates, opens, reads, removes or renames")
 var c08Types = []string{"journal", "manifest", "table", "none"}
 
 func c08HasEffect(k stor.Kind) bool {
@@ -570,14 +593,13 @@ func c08Spec(r *rng.R, i int) *crSpec {
 	if i%3 == 1 {
 		o.MaxManifest = int64(256 << uint(r.Intn(3)))
 	}
-	return &crSpec{Config: fmt.Sprintf("faults-%d", i), Opts: o, Seed: r.U64(), N: 80, BigPct: 8, TxPct: 9, DiscardPct: 25, CompactPct: 6}
+	return &crSpec{Config: fmt.Sprintf("faults-%d", i), Opts: o, Seed: r.U64(), N: 80, BigPct: 8, TxPct: 9, DiscardPct: 25, CompactPct: 6, Settle: i%4 != 3}
 }
 
 func runC08(c *Ctx) {
-	c.Res.Rule = "per workload (80 marker batches incl. large-batch writes, explicit transactions - discarded after a failed Commit, as documented - and CompactRange; tiny buffers): a fault-free run counts the storage operations per (kind x file type), then the workload is re-run once per fault plan: the k-th operation of a (kind, type) fails, without effect or with effect (bytes written / file synced / created / removed / CURRENT set although an error is returned), singly, as a burst of 2-5 consecutive failures, or as a sampled pair; phase run = armed after Open, phase reopen = armed during a reopen of the populated DB. Quick samples the positions (first, last, random per class), thorough takes all single faults. The DB is used on after the fault (writes, transactions, CompactRange, scan + Gets every 10 batches), closed, and a Clone is reopened without faults. Oracles at every read and after the reopen: contents = exactly the batches whose markers are present, applied in issue order; present only batches that were issued; every batch whose call returned nil present (in the run and after the reopen); reads may fail but never return a value that disagrees; every call under a 20 s watchdog. One evaluation = one faulted run; non-trivial = at least one fault fired; distinct by fault plan. Part 2 (damaged data, default checksum options): one byte flipped in a table data block or a journal chunk of a settled closed DB: every Get returns the right value or an error, scans return only right pairs (all of them when no error is reported); journal damage may drop whole batches only. " + c08OptNote
+	c.Res.Rule = "per workload (80 marker batches incl. large-batch writes, explicit transactions - discarded after a failed Commit, as documented - and CompactRange; tiny buffers; background work settles between client calls so that operation order repeats): a fault-free run records every storage operation as (kind x file type x client call in progress), then the workload is re-run once per fault plan: the k-th operation of a (kind, type) fails, without effect or with effect (bytes written / file synced / created / removed / CURRENT set although an error is returned), singly, as a burst of 2-5 consecutive failures, or as a sampled pair; phase run = armed after Open, phase reopen = armed during a reopen of the populated DB. Quick takes the first and two random positions of every (kind, type, call) class, thorough all positions. The DB is used on after the fault (writes, transactions, CompactRange, scan + Gets every 10 batches), closed, and a Clone is reopened without faults. Oracles at every read and after the reopen: contents = exactly the batches whose markers are present, applied in issue order; present only batches that were issued; every batch whose call returned nil present (in the run and after the reopen); reads may fail but never return a value that disagrees; every call under a 20 s watchdog. One evaluation = one faulted run; non-trivial = at least one fault fired; distinct by fault plan. Part 2 (damaged data, default checksum options): one byte flipped in a table data block or a journal chunk of a settled closed DB: every Get returns the right value or an error, scans return only right pairs (all of them when no error is reported); journal damage may drop whole batches only. " + c08OptNote
 	once := &crSigOnce{}
-	nwl := c.Scale(2, 4)
-	target := c.Scale(300, 1<<30)
+	nwl := c.Scale(3, 4)
 	type job struct {
 		plan *c08Plan
 		r    *rng.R
@@ -593,97 +615,85 @@ func runC08(c *Ctx) {
 		if base.outcome != "ok" {
 			c.Res.Note("baseline of %s not clean: %s", spec.Config, base.outcome)
 		}
-		runCounts := base.inj.counts
 		baseR := &c08Run{c: c, once: once, plan: &c08Plan{Workload: spec, Phase: "reopen", Note: c08OptNote}, bs: base.bs, o: base.o, r: r.Fork()}
 		baseR.run()
-		reopenCounts := baseR.inj.counts
-		keys := func(m map[string]int) []string {
-			var ks []string
-			for k := range m {
-				ks = append(ks, k)
-			}
-			sort.Strings(ks)
-			return ks
-		}
-		for _, k := range keys(runCounts) {
-			c.Res.CountN("baseline_ops_run", k, runCounts[k])
-		}
-		for _, k := range keys(reopenCounts) {
-			c.Res.CountN("baseline_ops_reopen", k, reopenCounts[k])
-		}
 		add := func(phase string, fs ...c08Fault) {
 			jobs = append(jobs, job{&c08Plan{Workload: spec, Phase: phase, Faults: fs, Note: c08OptNote}, r.Fork()})
 		}
-		perClass := target / nwl / 40
-		if perClass < 2 {
-			perClass = 2
-		}
 		for _, phase := range []string{"run", "reopen"} {
-			counts := runCounts
+			ctxOf := base.inj.ctxOf
 			if phase == "reopen" {
-				counts = reopenCounts
+				ctxOf = baseR.inj.ctxOf
 			}
 			for _, kind := range c08Kinds {
 				for _, typ := range c08Types {
-					n := counts[string(kind)+"/"+typ]
-					if n == 0 {
+					key := string(kind) + "/" + typ
+					ctxs := ctxOf[key]
+					if len(ctxs) == 0 {
 						continue
 					}
-					// positions
-					var ks []int
-					if c.Thorough || n <= perClass {
-						for k := 1; k <= n; k++ {
-							ks = append(ks, k)
+					// positions per call context
+					byCtx := map[string][]int{}
+					var order []string
+					for i, cx := range ctxs {
+						if _, ok := byCtx[cx]; !ok {
+							order = append(order, cx)
 						}
-					} else {
-						seen := map[int]bool{}
-						for _, k := range []int{1, n} {
-							if !seen[k] {
-								seen[k] = true
-								ks = append(ks, k)
+						byCtx[cx] = append(byCtx[cx], i+1)
+						c.Res.Count("baseline_ops_"+phase, key+"@"+cx)
+					}
+					sort.Strings(order)
+					for _, cx := range order {
+						pos := byCtx[cx]
+						var ks []int
+						if c.Thorough || len(pos) <= 3 {
+							ks = pos
+						} else {
+							a, b := 1+r.Intn(len(pos)-1), 1+r.Intn(len(pos)-1)
+							if a > b {
+								a, b = b, a
+							}
+							ks = []int{pos[0], pos[a]}
+							if b != a {
+								ks = append(ks, pos[b])
 							}
 						}
-						for len(ks) < perClass {
-							k := 1 + r.Intn(n)
-							if !seen[k] {
-								seen[k] = true
-								ks = append(ks, k)
-							}
-						}
-						sort.Ints(ks)
-					}
-					if phase == "reopen" && len(ks) > 6 && !c.Thorough {
-						ks = ks[:6]
-					}
-					for i, k := range ks {
 						modes := []string{"no-effect"}
 						if c08HasEffect(kind) {
 							modes = append(modes, "with-effect")
 						}
-						for _, m := range modes {
-							add(phase, c08Fault{kind, typ, k, 1, m})
-						}
-						// bursts: every position in quick (they are few), a third of them in thorough
-						if !c.Thorough || i%3 == 0 {
-							add(phase, c08Fault{kind, typ, k, 2 + r.Intn(4), modes[r.Intn(len(modes))]})
+						for i, k := range ks {
+							if c.Thorough || (kind != stor.OpRead && kind != stor.OpList && kind != stor.OpGetMeta) || i == 0 {
+								for _, m := range modes {
+									add(phase, c08Fault{kind, typ, k, 1, m})
+								}
+							}
+							// bursts (>= 3 defeats the three attempts of Transaction.Commit)
+							if !c.Thorough || i%4 == 0 {
+								add(phase, c08Fault{kind, typ, k, 3 + r.Intn(3), modes[r.Intn(len(modes))]})
+							}
+							if c.Thorough && i%4 == 2 {
+								add(phase, c08Fault{kind, typ, k, 2, modes[r.Intn(len(modes))]})
+							}
 						}
 					}
 				}
 			}
 		}
-		// sampled pairs of single faults on different classes
+		// sampled pairs of faults on different classes
 		var classes []string
-		for _, k := range keys(runCounts) {
+		for k := range base.inj.counts {
 			kind := stor.Kind(strings.SplitN(k, "/", 2)[0])
-			if kind != stor.OpList && kind != stor.OpGetMeta {
+			if kind != stor.OpList && kind != stor.OpGetMeta && kind != stor.OpClose {
 				classes = append(classes, k)
 			}
 		}
-		for i := 0; i < c.Scale(20, 400) && len(classes) > 1; i++ {
+		sort.Strings(classes)
+		for i := 0; i < c.Scale(20, 600) && len(classes) > 1; i++ {
 			a, b := classes[r.Intn(len(classes))], classes[r.Intn(len(classes))]
 			pa, pb := strings.SplitN(a, "/", 2), strings.SplitN(b, "/", 2)
-			fa := c08Fault{stor.Kind(pa[0]), pa[1], 1 + r.Intn(runCounts[a]), 1 + r.Intn(2), "no-effect"}
-			fb := c08Fault{stor.Kind(pb[0]), pb[1], 1 + r.Intn(runCounts[b]), 1 + r.Intn(3), "no-effect"}
+			fa := c08Fault{stor.Kind(pa[0]), pa[1], 1 + r.Intn(base.inj.counts[a]), 1 + r.Intn(2), "no-effect"}
+			fb := c08Fault{stor.Kind(pb[0]), pb[1], 1 + r.Intn(base.inj.counts[b]), 1 + r.Intn(3), "no-effect"}
 			if c08HasEffect(fb.Kind) && r.Chance(1, 2) {
 				fb.Mode = "with-effect"
 			}
@@ -694,8 +704,19 @@ func runC08(c *Ctx) {
 		}
 	}
 	c.Res.Note("fault plans generated: %d", len(jobs))
+	// a budget cut must not drop one kind of plan: shuffle (seeded)
+	sr := c.R.Fork()
+	for i := len(jobs) - 1; i > 0; i-- {
+		j := sr.Intn(i + 1)
+		jobs[i], jobs[j] = jobs[j], jobs[i]
+	}
 	// run the plans; hung runs only sleep, so many are kept in flight
-	sem := make(chan struct{}, 96)
+	par := 128
+	if v := os.Getenv("VERIF_C08_PAR"); v != "" {
+		fmt.Sscanf(v, "%d", &par)
+	}
+	trace := os.Getenv("VERIF_C08_TRACE") != ""
+	sem := make(chan struct{}, par)
 	var wg sync.WaitGroup
 	var done int64
 	for i, j := range jobs {
@@ -710,8 +731,15 @@ func runC08(c *Ctx) {
 			defer func() { <-sem }()
 			spec := j.plan.Workload
 			fr := &c08Run{c: c, once: once, plan: j.plan, bs: spec.gen(), o: c08Options(spec), r: j.r}
+			if trace {
+				pj, _ := json.Marshal(j.plan)
+				fmt.Fprintf(os.Stderr, "START %d %s\n", i, pj)
+			}
 			c.Guard("fault:panic", j.plan, func() { fr.run() })
-			fired := len(fr.inj.firedOps()) > 0
+			if trace {
+				fmt.Fprintf(os.Stderr, "END %d %s\n", i, fr.outcome)
+			}
+			fired := fr.firedAny
 			c.Res.Eval(fmt.Sprintf("%v/%s/%v", spec.Seed, j.plan.Phase, j.plan.Faults), fired)
 			for _, f := range j.plan.Faults {
 				shape := "single"
